@@ -455,6 +455,20 @@ theorem setLocal_ok {s s' : State} {t : Nat} {k : Nat} {v : Nat} (h : setLocal s
       obtain ⟨r1, r2⟩ := resolve_ok hr
       exact ⟨n, hg.1, hg.2.1, hg.2.2, r1, r2, h.symm⟩
 
+theorem storeFail_ok {s s' : State} {t : Nat} {k : Nat} {r : Bool} (h : storeFail s t k r = .ok s') :
+    ∃ n, canAct s t ∧ k ≠ 0 ∧ k < s.nK ∧ (s.key k).wrapperFreed = false ∧ (s.key k).published = some n ∧
+    s' = { s with dtorLog := s.dtorLog ++ notifyOld s t k n (if r then replaceCallsNotifier else setCallsNotifier) } := by
+  unfold storeFail at h
+  split at h
+  · cases h
+  · rename_i hg
+    simp only [not_or, Decidable.not_not] at hg
+    split at h
+    · cases h
+    · rename_i n hr; injection h with h
+      obtain ⟨r1, r2⟩ := resolve_ok hr
+      exact ⟨n, hg.1, hg.2.1, hg.2.2, r1, r2, h.symm⟩
+
 theorem replaceLocal_ok {s s' : State} {t : Nat} {k : Nat} {v : Nat} (h : replaceLocal s t k v = .ok s') :
     ∃ n, canAct s t ∧ k ≠ 0 ∧ k < s.nK ∧ (s.key k).wrapperFreed = false ∧ (s.key k).published = some n ∧
     s' = { s with dtorLog := s.dtorLog ++ notifyOld s t k n replaceCallsNotifier, tls := upd2 s.tls t n v } := by
@@ -1081,6 +1095,9 @@ theorem KInv.step {s s' : State} {e : Ev} (hk : KInv s) (hs : step s e = .ok s')
     exact hk.frame rfl rfl rfl rfl hk.tP (fun _ => rfl) (fun _ _ hv => .inl hv)
   | currentFail t =>
     obtain ⟨_, _, rfl⟩ := currentFail_ok hs
+    exact hk.frame rfl rfl rfl rfl hk.tP (fun _ => rfl) (fun _ _ hv => .inl hv)
+  | storeFail t k r =>
+    obtain ⟨n, _, _, _, _, _, rfl⟩ := storeFail_ok hs
     exact hk.frame rfl rfl rfl rfl hk.tP (fun _ => rfl) (fun _ _ hv => .inl hv)
   | startUnstored t =>
     obtain ⟨hd, hph, _, _, _, _, _, rfl⟩ := startUnstored_ok hs
@@ -2219,6 +2236,9 @@ theorem HInv.step {s s' : State} {e : Ev} (hi : HInv s) (hk : KInv s) (hp : PInv
     exact hi.logs _ _ _ _
   | currentFail t => exact hi.currentFail_inv hs
   | startUnstored t => exact hi.startUnstored_inv hs
+  | storeFail t k r =>
+    obtain ⟨n, _, _, _, _, _, rfl⟩ := storeFail_ok hs
+    exact hi.logs _ _ _ _
   | retUnstored t h => exact hi.retUnstored_inv hp hs
 
 theorem unrefCore_fields {s s' : State} {h : Nat} {own : Bool} (hs : unrefCore s h own = .ok s') :
@@ -2427,6 +2447,9 @@ theorem PInv.step {s s' : State} {e : Ev} (hp : PInv s) (hi : HInv s) (hk : KInv
       (by intro ho; rw [hnewH] at ho; cases ho)
     exact h1.of (fun _ => rfl) (fun t h hx => by obtain ⟨p1, p2, _, _, _, _, _, _, p9, _⟩ := h1.pP t h hx; exact ⟨p1, p2, p9, id⟩)
       (Nat.le_succ _) (fun h ho => ⟨rfl, ho, rfl, rfl, rfl, fun x => .inl x⟩) (fun _ ho => ho) (fun _ _ a b => .inl ⟨a, b, by first | rfl | trivial⟩)
+  | storeFail t k r =>
+    obtain ⟨n, _, _, _, _, _, rfl⟩ := storeFail_ok hs
+    exact hp.frame rfl (Nat.le_refl _) (fun _ => ⟨rfl, rfl, rfl, rfl⟩) (fun _ _ a b => ⟨a, b, by first | rfl | trivial⟩)
   | startUnstored t =>
     obtain ⟨h, hph, _, hh, hspin, hv, _, rfl⟩ := startUnstored_ok hs
     have hth := (hi.tH t h hh).2
@@ -2616,6 +2639,7 @@ theorem FInv.step {s s' : State} {e : Ev} (hf : FInv s) (hi : HInv s) (hk : KInv
   | joinFail a h => obtain ⟨_, _, _, _, _, rfl⟩ := joinFail_ok hs; exact hf
   | tlsFail t k g => obtain ⟨_, _, _, _, _, rfl⟩ := tlsFail_ok hs; exact hf
   | currentFail t => obtain ⟨_, _, rfl⟩ := currentFail_ok hs; exact FInvH.upd hf _ _ (by simp)
+  | storeFail t k r => obtain ⟨n, _, _, _, _, _, rfl⟩ := storeFail_ok hs; exact hf
   | startUnstored t =>
     obtain ⟨h, _, _, _, _, _, _, rfl⟩ := startUnstored_ok hs
     refine FInvH.upd hf _ _ ?_
@@ -2857,6 +2881,13 @@ theorem step_no_uaf {s : State} {e : Ev} (hf : FInv s) (hi : HInv s) (hk : KInv 
     · split at hs
       · cases hs
       · split at hs <;> cases hs
+  | storeFail t k r =>
+    simp only [step, storeFail] at hs
+    split at hs
+    · cases hs
+    · split at hs
+      · rename_i e' hr; injection hs with hs; subst hs; exact resolve_no_uaf _ _ _ hr
+      · cases hs
   | startUnstored t =>
     simp only [step, startUnstored] at hs
     split at hs
@@ -3193,6 +3224,7 @@ theorem valueOf_frame {s s' : State} {e : Ev} (hk : KInv s) (hs : step s e = .ok
   | joinFail a h => obtain ⟨_, _, _, _, _, rfl⟩ := joinFail_ok hs; rfl
   | tlsFail t' k' g => obtain ⟨_, _, _, _, _, rfl⟩ := tlsFail_ok hs; rfl
   | currentFail t' => obtain ⟨_, _, rfl⟩ := currentFail_ok hs; rfl
+  | storeFail t' k' r' => obtain ⟨n, _, _, _, _, _, rfl⟩ := storeFail_ok hs; rfl
   | startUnstored t' => obtain ⟨_, _, _, _, _, _, _, rfl⟩ := startUnstored_ok hs; rfl
   | retUnstored t' h' =>
     obtain ⟨_, _, s1, hu, rfl⟩ := retUnstored_ok hs
@@ -3200,7 +3232,8 @@ theorem valueOf_frame {s s' : State} {e : Ev} (hk : KInv s) (hs : step s e = .ok
 
 /-- only `replace_local` and thread termination call notifiers -/
 theorem dtorLog_frame {s s' : State} {e : Ev} (hs : step s e = .ok s')
-    (h1 : ∀ t k v, e ≠ .replaceLocal t k v) (h2 : ∀ t, e ≠ .threadEnd t) (h3 : ∀ t k v, e ≠ .setLocal t k v) :
+    (h1 : ∀ t k v, e ≠ .replaceLocal t k v) (h2 : ∀ t, e ≠ .threadEnd t) (h3 : ∀ t k v, e ≠ .setLocal t k v)
+    (h4 : ∀ t k r, e ≠ .storeFail t k r) :
     s'.dtorLog = s.dtorLog := by
   cases e with
   | spawn => have := spawn_ok hs; subst this; rfl
@@ -3228,6 +3261,7 @@ theorem dtorLog_frame {s s' : State} {e : Ev} (hs : step s e = .ok s')
   | joinFail a h => obtain ⟨_, _, _, _, _, rfl⟩ := joinFail_ok hs; rfl
   | tlsFail t' k' g => obtain ⟨_, _, _, _, _, rfl⟩ := tlsFail_ok hs; rfl
   | currentFail t' => obtain ⟨_, _, rfl⟩ := currentFail_ok hs; rfl
+  | storeFail t' k' r' => exact absurd rfl (h4 t' k' r')
   | startUnstored t' => obtain ⟨_, _, _, _, _, _, _, rfl⟩ := startUnstored_ok hs; rfl
   | retUnstored t' h' =>
     obtain ⟨_, _, s1, hu, rfl⟩ := retUnstored_ok hs
@@ -3314,6 +3348,7 @@ theorem freeLog_frame {s s' : State} {e : Ev} (hs : step s e = .ok s')
   | joinFail a h => obtain ⟨_, _, _, _, _, rfl⟩ := joinFail_ok hs; rfl
   | tlsFail t' k' g => obtain ⟨_, _, _, _, _, rfl⟩ := tlsFail_ok hs; rfl
   | currentFail t' => exact absurd rfl (h4 t')
+  | storeFail t' k' r' => obtain ⟨n, _, _, _, _, _, rfl⟩ := storeFail_ok hs; rfl
   | startUnstored t' => obtain ⟨_, _, _, _, _, _, _, rfl⟩ := startUnstored_ok hs; rfl
   | retUnstored t' h' => exact absurd rfl (h5 t' h')
 
@@ -3458,6 +3493,7 @@ theorem NInv.step {s s' : State} {e : Ev} (h : NInv s) (hk : KInv s) (hs : step 
   | tlsFail t' k g => obtain ⟨_, _, _, _, _, rfl⟩ := tlsFail_ok hs; exact h.frame rfl rfl rfl rfl
   | currentFail t' => obtain ⟨_, _, rfl⟩ := currentFail_ok hs; exact h.frame rfl rfl rfl rfl
   | startUnstored t' => obtain ⟨_, _, _, _, _, _, _, rfl⟩ := startUnstored_ok hs; exact h.frame rfl rfl rfl rfl
+  | storeFail t' k r => obtain ⟨n, _, _, _, _, _, rfl⟩ := storeFail_ok hs; exact h.frame rfl rfl rfl rfl
   | retUnstored t' h' =>
     obtain ⟨_, _, s1, hu, rfl⟩ := retUnstored_ok hs
     obtain ⟨_, ⟨_, rfl⟩ | ⟨_, rfl⟩⟩ := unrefCore_ok hu <;> exact h.frame rfl rfl rfl rfl
